@@ -45,6 +45,11 @@ func main() {
 		{Cfg: mk("2111-byz-small", []int64{2, 1, 1, 1}, netsim.Config{Byz: []int{3}}), Bound: b - 1},
 		{Cfg: mk("3331-byz-small", []int64{3, 3, 3, 1}, netsim.Config{Byz: []int{3}}), Bound: b - 1},
 	}
+	macro := "macro2"
+	if r.Thorough() {
+		macro = "macro3"
+	}
+	scen = append(scen, netsim.Scenario{Cfg: mk("4x1-"+macro+"-round-shapes", one, netsim.Config{Byz: []int{3}, NoByzMenu: true, Driver: macro}), Bound: 0})
 	// a fresh network started from the shipped genesis file, every validator on the REAL node stack
 	scen = append(scen, netsim.Scenario{Cfg: mk("shipped-testnet-genesis", []int64{1, 1, 1}, netsim.Config{NoByzMenu: true, TargetHeight: 2,
 		Full: &netsim.FullSpec{Genesis: loadShipped("cmd/cfg/genesis_testnet.yaml", true), Keys: []int{3, 4, 5}}}), Bound: 1})
